@@ -283,6 +283,11 @@ def run(argv):
     if "--redo-survivors" in argv and os.path.exists(resf):
         keep = [l for l in open(resf) if json.loads(l)["status"] != "survived"]
         open(resf, "w").writelines(keep)
+    if "--redo" in argv and os.path.exists(resf):
+        ids = set(argv[argv.index("--redo") + 1].split(","))
+        keep = [l for l in open(resf) if json.loads(l)["id"] not in ids]
+        open(resf, "w").writelines(keep)
+        index = [m for m in index if m["id"] in ids]
     if os.path.exists(resf):
         for l in open(resf):
             r = json.loads(l)
@@ -369,10 +374,16 @@ def report():
     if os.path.exists(tf):
         tri = json.load(open(tf))
     cand = st.get("killed", 0) + st.get("survived", 0)
+    classes = {}
+    for r in rs:
+        if r["status"] == "survived":
+            c = tri.get(f"{r['file']}:{r['line']}:{r['op']}:{r['new']}", "untriaged").split(":")[0].split(" under")[0].split(" for ")[0].split(" in effect")[0]
+            classes[c] = classes.get(c, 0) + 1
     out = ["# Mechanical mutation screening (mutate.py)", "",
            f"{len(rs)} mutants evaluated: " + ", ".join(f"{k} {v}" for k, v in sorted(st.items())), "",
            f"Candidates (compile, pass the pinned suite): {cand}; killed by a check at smoke strength: {st.get('killed', 0)}.", "",
            "Killed, by first check that fired: " + ", ".join(f"{k} {v}" for k, v in sorted(by.items())), "",
+           "Survivors by triage class: " + ", ".join(f"{k} {v}" for k, v in sorted(classes.items())), "",
            "## Survivors", "", "| mutant | file:line | operator | change | triage |", "|---|---|---|---|---|"]
     for r in rs:
         if r["status"] == "survived":
